@@ -170,6 +170,7 @@ func (fr *Frame) evalCall(st *State, call *ast.CallExpr, nWant int) []*Term {
 		}
 		// external without contract
 		e.assumed[key] = true
+		fr.checkCallPre(st, fn, recv, args, call)
 		return fr.freshResults(st, sig, fn.Name())
 	}
 	// dynamic: interface method or function value
